@@ -12,8 +12,8 @@ GROUPS.append(G("tu_ReadRecordHeader", TU, "h_ReadRecordHeader", enforce=[], lin
 GROUPS.append(G("tu_WriteRecordHeader", TU, "h_WriteRecordHeader", enforce=[], link=LINK, unwind=12, timeout=300, functions=["WriteRecordHeader", "Granularity"]))
 PB = "harness/C07/h_pbind.c"
 ERRNO = ["-include", "$VERIF/include/verif_errno_shim.h"]
-GROUPS.append(G("pb_ProcessFile_data", PB, "h_ProcessFile_data", enforce=[], replace=[], dfcc=False, link=["toolutils.c", "as_endian.c", "bpemu.c"],
-                loops=True, unwind=40, unwindset=["ProcessFile.0:3"], timeout=900, cflags=ERRNO, functions=["ProcessFile"], object_bits=12,
+GROUPS.append(G("pb_ProcessFile_data", PB, "h_ProcessFile_data", enforce=[], replace=[], dfcc=False, drop_unused=True, link=["toolutils.c", "as_endian.c", "bpemu.c"],
+                loops=True, unwind=40, unwindset=["@ProcessFile:ProcessFile:last:3"], timeout=900, cflags=ERRNO, functions=["ProcessFile"], object_bits=12, split=8, flags=["--slice-formula"],
                 bounded="input = one data record of arbitrary header form, address, length (copy loop under loop contract: unbounded payload) followed by the end record"))
 TRUSTED_BASE = ["stubs/gfile.c: ghost stdio model (position/length exact, one witness byte, short reads/failed writes as oracle)",
                 "message catalogue and printf/fprintf replaced by no-op monitors", "exit() monitor"]
